@@ -134,7 +134,7 @@ class ScopeNameFinder:
             name = self.worder.get_from_aliased(offset)
         else:
             name = self.worder.get_primary_at(offset)
-        if self._is_in_header_expression(holding_scope, offset):
+        while self._is_in_header_expression(holding_scope, offset):
             holding_scope = holding_scope.parent
         return eval_str2(holding_scope, name)
 
@@ -143,16 +143,25 @@ class ScopeNameFinder:
 
         They stand inside the ``def`` or ``class`` statement but are
         evaluated in the scope that contains it: in ``def f(v=v)`` the
-        default is the outer ``v``.
+        default is the outer ``v``.  So is the first iterable of a
+        comprehension.
         """
-        if scope.parent is None or scope.get_kind() not in ("Function", "Class"):
+        if scope.parent is None:
             return False
         node = scope.pyobject.get_ast()
-        expressions = list(node.decorator_list)
+        comprehensions = (ast.ListComp, ast.SetComp, ast.DictComp, ast.GeneratorExp)
+        if isinstance(node, comprehensions):
+            # likewise the first iterable: ``[x for x in x]`` loops over the
+            # outer ``x``
+            expressions = [node.generators[0].iter]
+        elif scope.get_kind() not in ("Function", "Class"):
+            return False
+        else:
+            expressions = list(node.decorator_list)
         if scope.get_kind() == "Class":
             expressions.extend(node.bases)
             expressions.extend(keyword.value for keyword in node.keywords)
-        else:
+        elif scope.get_kind() == "Function":
             parameters = node.args
             expressions.extend(parameters.defaults)
             expressions.extend(parameters.kw_defaults)
